@@ -214,4 +214,14 @@ CHECKS = {
         assumptions=["process time zone (time.Local) is UTC, as in the server's default deployment"],
         technique="stratified enumeration + randomized search against arithmetic oracles",
     ),
+    "C31": dict(
+        test="TestC31", level="exploration", shards=16,
+        tiers=dict(quick=dict(checks=5000, timeout=600), thorough=dict(checks=500000, timeout=3000)),
+        rule="rapid candle strings <1-9999><Sec|Min|H|D|W|M|Y> x timestamps (within +-25h of DST switches, year edges, "
+             "leap day, Sunday/Monday boundaries, or uniform 1990-2040) x 8 zones; oracle: Truncate(t) <= t < Ceil(t), "
+             "IsWithin(t, Truncate(t)), QueryableTimeframe divides the duration, string -> Timeframe -> "
+             "TimeframeFromDuration -> string -> Timeframe keeps the duration; non-trivial = timestamp within 26h of a "
+             "UTC-offset change or on the first/last day of a year",
+        technique="property-based testing with arithmetic oracles",
+    ),
 }
